@@ -1,5 +1,5 @@
 import Driver.Common
-import AnyioModel.Sync.Semaphore
+import AnyioModel.Sync.SemaphoreHistory
 
 namespace Driver.Sem
 open AnyioModel.Sync.Semaphore
@@ -24,24 +24,32 @@ def parseEv : List String → Option Ev
   | ["mc", t] => do some (.mc (← t.toNat?))
   | _ => none
 
-/-- requests: `new <fast 0|1> <initial> <max|->`, `obs`, or an event -/
-def handle (s : State) : List String → State × String
+def natList (l : List Nat) : String :=
+  if l.isEmpty then "-" else ",".intercalate (l.map toString)
+
+/-- requests: `new <fast 0|1> <initial> <max|->`, `obs`, `log` (the history ghosts of
+`Sync/SemaphoreHistory.lean`, kept next to the state), or an event -/
+def handle (sl : State × Log) : List String → (State × Log) × String
   | ["new", f, v, m] =>
     match Driver.parseBool f, v.toNat?, parseOptNat m with
-    | some b, some v, some m => (init b v m, "ok")
-    | _, _, _ => (s, "bad-op")
-  | ["obs"] => (s, s!"value={s.value} waiters={s.waiters.length}")
-  | ["skip"] => (s, "skipped")
+    | some b, some v, some m => ((init b v m, {}), "ok")
+    | _, _, _ => (sl, "bad-op")
+  | ["obs"] => (sl, s!"value={sl.1.value} waiters={sl.1.waiters.length}")
+  | ["skip"] => (sl, "skipped")
   | ["ghost"] =>
-    (s, s!"holders={s.holders.length} infl={s.infl.length} extra={s.extra} lost={s.lost}")
+    let s := sl.1
+    (sl, s!"holders={s.holders.length} infl={s.infl.length} extra={s.extra} lost={s.lost}")
+  | ["log"] =>
+    let l := sl.2
+    (sl, s!"enq={natList l.enq} granted={natList l.granted} cancelled={natList l.cancelled}")
   | ws =>
     match parseEv ws with
-    | none => (s, "bad-op")
+    | none => (sl, "bad-op")
     | some e =>
-      match step s e with
-      | none => (s, "DISABLED")
-      | some (s', o) => (s', outStr o)
+      match step sl.1 e with
+      | none => (sl, "DISABLED")
+      | some (s', o) => ((s', logStep sl.1 sl.2 e s'), outStr o)
 
 end Driver.Sem
 
-def main : IO Unit := Driver.serve (AnyioModel.Sync.Semaphore.init false 0 none) Driver.Sem.handle
+def main : IO Unit := Driver.serve (AnyioModel.Sync.Semaphore.init false 0 none, {}) Driver.Sem.handle
